@@ -218,3 +218,21 @@ def reg_to_case(m, reg):
         ty = pt[1]
         out.append({'id': pt[0], 'path': ty[0][0], 'params': [{'name': p[0], 'ty': opt(p[1], sym)} for p in ty[1]], 'def': tdef(ty[2]), 'docs': ty[3]})
     return out
+
+
+def pin_to_model(M, m, v):
+    """constrain every symbolic leaf of a value to its value in model m (turns a symbolic registry into one concrete registry)"""
+    def go(x):
+        if isinstance(x, list):
+            for y in x: go(y)
+        elif isinstance(x, VecV):
+            if not isinstance(x.len, int) and not z3.is_bv_value(x.len): M.add(x.len == m.eval(x.len, model_completion=True))
+            for y in x.elems: go(y)
+        elif isinstance(x, ValSlice):
+            for b in x.elems: go(b)
+        elif isinstance(x, EnumV):
+            if not isinstance(x.discr, int) and not z3.is_bv_value(x.discr): M.add(x.discr == m.eval(x.discr, model_completion=True))
+            for p in x.payloads.values(): go(p)
+        elif z3.is_expr(x) and not z3.is_bv_value(x) and not z3.is_true(x) and not z3.is_false(x):
+            M.add(x == m.eval(x, model_completion=True))
+    go(v)
